@@ -113,6 +113,18 @@ CHECKS = {
              'is the receiving instance (None for class-based operations); return_value is written only by the return evaluator '
              'and read only by run_*; enumerators are numbered along R56 and constants converted by their modelled type.',
         note=TRUST + 'values computed by nested/recursive calls are not decided, only that each call has its own scope.'),
+    'C16': dict(
+        cat='other', sec='DESIGN.md 2/C16',
+        technique='finite abstract execution of the source of sort_reflexive (own evaluator of the Python subset it is written in) over abstract models of a reflexive one-to-one association, with a step budget for termination (static: symbolic instances, navigation as table look-up, nothing of the repository runs)',
+        text='Decides the traversal scheme of sort_reflexive, not its result on a given model: on every arrangement of up to four '
+             'symbolic instances into whole chains (every partition, order within a chain and order of the set), both phrases, the '
+             'association number as string and as integer, the evaluated source returns every member once with each chain contiguous '
+             'from the member without a partner across the phrase along the opposite phrase; a single ring of up to four members is '
+             'returned once around from the first member of the set; the empty set gives an empty result and a non-QuerySet is '
+             'rejected; on every subset of chains / rings and on mixed sets the evaluation ends within a step budget and returns '
+             'members of the set only; the opposite phrase is found among decoy links.  Larger sets follow by a stated (not '
+             'mechanised) uniformity argument: one loop iteration handles one instance and reads only it, the head and set membership.',
+        note=TRUST + 'the evaluator in sa/rules/c16.py (semantics of the Python subset and of navigate_one/QuerySet/links as modelled there), the one-to-one invariant of the association (C02).'),
     'C17': dict(
         cat='other', sec='DESIGN.md 2/C17',
         technique='shape analysis on a symbolic heap (bounded, with a locality check that justifies the bound) + abstract table for __eq__ + class inventory against the MutableSet mixins (static)',
@@ -194,9 +206,6 @@ CHECKS = {
 }
 
 NOT_APPLICABLE = {
-    'C16': 'Result order and termination of sort_reflexive depend on the run-time contents of the link dictionaries '
-           '(a data invariant: the association is one-to-one); no clause of the property is visible in the shape of '
-           'the code, so no sound static rule decides it.',
 }
 
 # clauses added after the first build (rounds 3-4 of seeded changes), appended to the level text of the property
